@@ -636,6 +636,7 @@ class BloomFilterOnDisk(BloomFilter):
         self.close()
 
     def __bytes__(self) -> bytes:
+        self.__update()  # the footer in the file may be behind (e.g. elements_added was assigned)
         return bytes(self._bloom)
 
     def close(self) -> None:
